@@ -78,7 +78,21 @@ def build(cfg, mon):
         return co
 
     middlewares = []
-    if cfg['mw'] != 'none':
+    if cfg['mw'] == 'plainfn':
+        # a middleware that is NOT a coroutine function: it does its work when called and returns an awaitable
+        def mw(request, context, handler):
+            i = request.params[0] if request.params else -1
+            mon.enter(i)
+
+            async def rest():
+                try:
+                    await gate(i, 'mwb')
+                    return await handler(request, context)
+                finally:
+                    mon.exit(i)
+            return rest()
+        middlewares.append(mw)
+    elif cfg['mw'] != 'none':
         async def mw(request, context, handler):
             i = request.params[0] if request.params else -1
             mon.enter(i)
@@ -239,10 +253,10 @@ def gen_cases(ctx):
     # middleware / error handler stacks (<= 2 suspension points per element in total)
     small = [('g0ok', True), ('g1ok', True), ('g0perr', True), ('g1perr', False), ('unknown', True), ('plainperr', True), ('g1boom', True)]
     for conc in (True, False):
-        for mw, eh in (('before', 'none'), ('after', 'none'), ('both', 'none'), ('none', 'gate'), ('before', 'gate'), ('after', 'gate')):
+        for mw, eh in (('before', 'none'), ('after', 'none'), ('both', 'none'), ('none', 'gate'), ('before', 'gate'), ('after', 'gate'), ('plainfn', 'none')):
             for n in range(1, ctx.pick(2, 3) + 1):
                 for elems in itertools.product(small, repeat=n):
-                    budget_ok = all(KINDS.get(k, (0,))[0] + {'none': 0, 'before': 1, 'after': 1, 'both': 2}[mw] +
+                    budget_ok = all(KINDS.get(k, (0,))[0] + {'none': 0, 'before': 1, 'after': 1, 'both': 2, 'plainfn': 1}[mw] +
                                     (1 if eh == 'gate' and (k == 'unknown' or KINDS[k][1] not in ('ok', 'plain')) else 0) <= 2
                                     for k, _ in elems)
                     if budget_ok:
